@@ -1,10 +1,13 @@
 import Parmcb.Driver.Proto
 import Parmcb.Driver.Gf2
+import Parmcb.Driver.Fp
 open Parmcb.Driver
 
 def dispatch (c : Case) : String :=
   match c.kind with
   | "gf2" => handleGf2 c
+  | "fp" => handleFp c
+  | "fpvec" => handleFpVec c
   | k => s!"diff {c.id} unknown-kind {k}"
 
 partial def readAll (h : IO.FS.Stream) (acc : Array String) : IO (Array String) := do
